@@ -1,6 +1,7 @@
 import Dia.ServerThm
 import Dia.StreamSeq
 import Dia.HistoryThm
+import Dia.Examples
 /-! # C06 - Stream framing is independent of how bytes are segmented. Property theorems only.
 A byte stream is a script of successive `poll_read` outcomes (`REv`: a chunk, `Pending`, end, error); `flat` is the
 octet sequence it delivers. `noEmpty` says the script is a well-behaved one: no i/o error, no empty chunk. -/
@@ -55,18 +56,15 @@ theorem C06_encode (m : Msg) (w : List WEv) (hw : neverFails w) (hg : m.Good) (h
   have hs := (Msg.enc_spec m hg.wf hg.cons hg.len h24).1
   rw [Codec.encodeTo_ok m w hw (by rw [hs]), hs]
 
-/-! non-vacuity: a header-only frame is acceptable, and a script that delivers it in two pieces with a pause in
-between meets the hypotheses of the read-side theorems -/
-def exFrame : Bytes := [1, 0, 0, 20, 0x80, 0, 1, 16, 0, 0, 0, 4, 0, 0, 0, 1, 0, 0, 0, 2]
-def exFrameMsg : Msg := ⟨1, 20, 0x80, 272, 4, 1, 2, []⟩
-
-example : Accepts ⟨fun _ _ => false, 32⟩ (fun _ _ => .unknown) exFrame exFrameMsg := by
-  refine ⟨?_, by decide, by decide, by decide⟩
-  simp [decMsg, exFrame, Cur.read, fromBe, cmdKnown, appKnown, decGroup, exFrameMsg, Out.bind]
-
+/-! non-vacuity: a header-only frame is acceptable (`exFrame_accepts`, Dia/Examples.lean), and a script that delivers
+it in two pieces with a pause in between meets the hypotheses of the read-side theorems -/
 example : noEmpty [.data (exFrame.take 3), .pending, .data (exFrame.drop 3)] ∧
     flat [.data (exFrame.take 3), .pending, .data (exFrame.drop 3)] = exFrame ++ [] := by
   refine ⟨?_, by decide⟩
   simp [noEmpty, exFrame]
+
+example : ∃ evs', Codec.decode exCfg exDictNone [.data (exFrame.take 3), .pending, .data (exFrame.drop 3)] =
+    ⟨.ok exFrameMsg, evs', 20⟩ ∧ flat evs' = [] ∧ noEmpty evs' :=
+  C06_read_frame exCfg exDictNone _ exFrame [] exFrameMsg (by simp [noEmpty, exFrame]) (by decide) exFrame_accepts
 
 end Dia
